@@ -204,7 +204,14 @@ func RunFifo(e *Env) {
 			if p.PCT && e.Hooks != nil {
 				pctMu.Lock()
 				e.Hooks.SetDelay(h.PCT(e.Seed, int64(i)))
-				defer func() { e.Hooks.SetDelay(nil); pctMu.Unlock() }()
+				e.Hooks.StartTrace()
+				defer func() {
+					sig, ev := e.Hooks.StopTrace()
+					R.Seen("interleaving_signatures_of_pct_programs(first 64 listed)", fmt.Sprintf("%016x(%d events)", sig, len(ev)))
+					R.Count("pct_programs_with_recorded_interleaving", 1)
+					e.Hooks.SetDelay(nil)
+					pctMu.Unlock()
+				}()
 			}
 			runFifoProgram(e, i, p)
 		}(i, p)
